@@ -233,7 +233,8 @@ def array(V):
 
 
 # ------------------------------------------------------------------ objects
-NAMES = ['a', 'a-b', '1x', 'class', 'items', 'keys', 'update', 'a b', '', '__init__', 'get', 'A', 'self', 'def']
+NAMES = ['a', 'a-b', '1x', 'class', 'items', 'keys', 'update', 'a b', '', '__init__', 'get', 'A', 'self', 'def',
+         'a_b', 'items_1', 'class_value', 'field_1x', 'a_b_1']
 
 
 @ob('object', marks=['accept', 'reject'], budget=(120, 400), exhaustive=False,
